@@ -293,6 +293,53 @@ def run_sack(acc, wd, gi, rng, seed):
             if ref.get(fn) != snap.get(fn):
                 acc.violation(PROP, 'output-differs:sack:%s:%s' % (tag.split('-')[0], fn.split('.', 1)[-1]),
                               {'run': tag, 'file': fn, 'types.h': types_h, 'main.hpp': main_h, 'stderr': se[-300:], 'seed': seed})
+    # several headers in one run: main2.hpp (next to its own types.h) and second.hpp in another directory, which takes
+    # <types.h> and <shared.h> from the -I directory; both use a union and a namespaced struct of shared.h (types that
+    # enter the model through the members using them). Each header alone and both together, in both orders.
+    inc, src2 = os.path.join(root, 'inc'), os.path.join(root, 'src2')
+    os.makedirs(inc)
+    os.makedirs(src2)
+    open(os.path.join(inc, 'types.h'), 'w').write(
+        '#include <stdint.h>\ntypedef uint16_t TId;\nenum Kind { Kind_A = 5, Kind_B = 6 };\n'
+        'struct Point { TId a; uint8_t b; };\nstruct Pair { Point p; Kind k; };\n')
+    open(os.path.join(inc, 'shared.h'), 'w').write(
+        '#include <stdint.h>\nunion SharedU\n{\n    uint8_t a;\n    uint32_t b;\n};\n'
+        'namespace geo { struct Pt { uint16_t x; uint8_t y; }; }\n')
+    open(os.path.join(src, 'main2.hpp'), 'w').write(
+        '#include "types.h"\n#include <shared.h>\n' + struct('Msg2', SACK_SCALARS + ['TId', 'Point', 'Kind']) +
+        'struct UsesShared\n{\n    SharedU u;\n    geo::Pt p;\n    TId t;\n};\n')
+    open(os.path.join(src2, 'second.hpp'), 'w').write(
+        '#include <types.h>\n#include <shared.h>\n' + struct('Sec', SACK_SCALARS + ['TId', 'Point', 'Pair', 'Kind']) +
+        'struct SecShared\n{\n    geo::Pt p[2];\n    SharedU u;\n    Pair q;\n};\n')
+    m2, sec = os.path.join(src, 'main2.hpp'), os.path.join(src2, 'second.hpp')
+    multi = {}
+    for tag, inputs in (('alone-main2', [m2]), ('alone-second', [sec]), ('together-main2-second', [m2, sec]),
+                        ('together-second-main2', [sec, m2])):
+        out = os.path.join(root, 'out_' + tag)
+        os.makedirs(out)
+        args = ['--quiet', '--sack', '-I', inc]
+        for o in OUTS:
+            args += [o, out]
+        rc, so, se = pc.run_cli(args + inputs, cwd=root, hashseed=str(rng.randint(0, 3)))
+        acc.ev()
+        acc.count('cli_runs')
+        acc.count('sack_runs_with_several_headers' if len(inputs) > 1 else 'sack_runs')
+        acc.sig((gi, seed, 'sack', tag))
+        multi[tag] = (rc, se, snapshot(out) if rc == 0 else None)
+    if multi['alone-main2'][0] != 0 or multi['alone-second'][0] != 0:
+        acc.prereq({'stage': 'cli sack (header alone)', 'stderr': (multi['alone-main2'][1] + multi['alone-second'][1])[-600:]})
+    else:
+        for tag in ('together-main2-second', 'together-second-main2'):
+            rc, se, snap = multi[tag]
+            if rc != 0:
+                acc.violation(PROP, 'sack-headers-fail-together', {'run': tag, 'rc': rc, 'stderr': se[-500:], 'seed': seed})
+                continue
+            for alone in ('alone-main2', 'alone-second'):
+                for fn, data in multi[alone][2].items():
+                    acc.count('files_compared')
+                    if snap.get(fn) != data:
+                        acc.violation(PROP, 'output-depends-on-other-inputs-of-the-run:sack:%s' % fn.split('.', 1)[-1],
+                                      {'run': tag, 'file': fn, 'seed': seed})
     shutil.rmtree(root, ignore_errors=True)
 
 
@@ -386,7 +433,7 @@ def run_shard(spec):
 
 
 def finish(ctx, merged, specs):
-    missing = [k for k in ('cli_runs', 'files_compared', 'in_process_runs', 'layout_runs', 'sack_runs', 'groups:isar', 'groups:prophy') if not merged['counters'].get(k)]
+    missing = [k for k in ('cli_runs', 'files_compared', 'in_process_runs', 'layout_runs', 'sack_runs', 'sack_runs_with_several_headers', 'groups:isar', 'groups:prophy') if not merged['counters'].get(k)]
     if merged['counters'].get('prerequisite_failures', 0) > merged['counters'].get('cli_runs', 0) // 4:
         missing.append('too many prerequisite failures')
     if 'same-named-patched-node-in-two-inputs' not in merged.get('features', []) and not (specs and specs[0]['kind'] == 'replay'):
